@@ -504,7 +504,21 @@ def r2_form_selection(ctx, rep):
     rep.ob("source listing uses the matching lexer", ok, "", py.nloc(lx), nontrivial=False)
 
 
+def r3_labelled_call_forms(ctx, rep):
+    """statements keep their label field: labelled calls are read in both forms (shared with C08.R4)"""
+    from . import c08
+    c08.r4_call_forms(ctx, rep)
+
+
+def r4_labelled_end(ctx, rep):
+    """a labelled END closes its unit in both forms (shared with C20.R3)"""
+    from . import c20
+    c20.r3_nesting_errors_raise(ctx, rep)
+
+
 RULES = [
     RuleSpec("C14.R1", r1_columns, "column table agreement", floor=7),
     RuleSpec("C14.R2", r2_form_selection, "form selection plumbing", floor=4),
+    RuleSpec("C14.R3", r3_labelled_call_forms, "statements keep their label field: labelled calls are read in both forms (shared with C08.R4)", floor=1),
+    RuleSpec("C14.R4", r4_labelled_end, "a labelled END closes its unit in both forms (shared with C20.R3)", floor=1),
 ]
